@@ -12,13 +12,14 @@
 //!   euccov      IN sym m cover_1 … cover_m      OUT class(sym) class(cover_1) … class(cover_m)
 //!   ograph      IN sym                          OUT nl label… ne v w …          | PANIC
 //!
-//! Universe: the 3D universe of C15 (`d3gen`), covers with ≤ 2 (quick) / 3 (thorough) sheets,
+//! Universe: the 3D universe of C15 (`d3gen`), covers with ≤ 2 (quick) / 3 (thorough) sheets
+//! (≤ 4 sheets for n ≤ 2 quick / n ≤ 3 thorough),
 //! the corpus (thorough: every corpus input 3 times — `simplify` iterates a HashSet, §5.9).
 use rust_dsymbols::covers::covers;
 use rust_dsymbols::delaney3d::{orbifold_graph, pseudo_toroidal_cover};
 use rust_dsymbols::euclidicity::{is_euclidean, Euclidean};
 use std::panic::{catch_unwind, AssertUnwindSafe};
-use verif_harness::d3gen::{classes, corpus, symbols_3d};
+use verif_harness::d3gen::{classes, corpus, parse_symbol, symbols_3d};
 use verif_harness::dsgen::{random_perm1, Tab};
 use verif_harness::{Ctx, Rng};
 
@@ -138,6 +139,17 @@ fn main() {
     let mut rng = ctx.rng(17);
     let sheets = if th { 3 } else { 2 };
 
+    // (0) regression corpus.  D16: `<1.1:3 3:1 2 3,1 3,2 3,1 2 3:6 4,3,4 3>` is euclidean (yes) but
+    //     one of its 4-sheeted covers — H1 = Z6 × Z6, whose table entry listed the invariants as
+    //     2,3,6 instead of the invariant factors 6,6 that abelian_invariants returns — was
+    //     reported non-euclidean ("orbifold invariants do not match"); same for the dual.
+    {
+        let base = parse_symbol("<1.1:3 3:1 2 3,1 3,2 3,1 2 3:6 4,3,4 3>").expect("D16 base symbol");
+        euc(&mut ctx, "euc", &base, true, 0, "regress-D16");
+        euccov(&mut ctx, &base, 4, "regress-D16");
+        euccov(&mut ctx, &base.dual(), 4, "regress-D16");
+    }
+
     // (1) corpus: yes expected; thorough: three runs of every input
     let reps = if th { 3 } else { 1 };
     for s in corpus() {
@@ -176,7 +188,9 @@ fn main() {
                 let vs = variants(&s, &mut rng, nren);
                 eucinv(&mut ctx, &vs, extra);
                 if exhaustive || th {
-                    euccov(&mut ctx, &s, if n <= 4 { sheets } else { 2 }, extra);
+                    // covers with up to 4 sheets for the small symbols (n ≤ 2 quick, n ≤ 3 thorough)
+                    let k = if n <= 2 || (th && n <= 3) { 4 } else if n <= 4 { sheets } else { 2 };
+                    euccov(&mut ctx, &s, k, extra);
                 }
             }
         }
